@@ -1523,10 +1523,48 @@ def check_C03(tier):
         if extra:
             v.disagree({"t": "DISAGREE", "what": "negated_entry_yielded", "sid": h["sid"], "sig": sig, "scenario": h},
                        "%s: yielded although matched by the negation (or not by the glob): %s" % (h["desc"], extra))
+    # product scenarios (tree x walk kind x link behaviour x depth behaviour x stacks of filters and negations): traces
+    # validated, and every verdict that a negation gives on an entry that reaches it undiscarded is compared with the
+    # real is_match on the root-relative path
+    prod = [h for h in W.product_scenarios(random.Random(C.SEED + 3), 150 if tier == "quick" else 1500, 100001)
+            if any(l["kind"] == "not" for l in h["layers"])]
+    ppiv = W.prepare_glob_scenarios(prod)
+    for h in prod:
+        if h.get("glob") is None:
+            h["_base_text"] = "root"
+    presults, pyielded, ptstats, pntraces = W.run_and_validate("C03", prod, "c03p", v, pivots=ppiv)
+    ppairs = []
+    for h in prod:
+        for y in pyielded.get(h["sid"], []):
+            if y["err"] == "none" and y["text"] is not None:
+                for l in h["layers"]:
+                    if l["kind"] == "not":
+                        ppairs.append(((C.text(l["patterns"][0]),), W.rel_to(y["text"], h["_base_text"])))
+    pmatch = W.matches(ppairs)
+    n_prod = 0
+    for h in prod:
+        if h.get("glob") is not None and ppiv.get(h["sid"], 0) > 0:
+            continue    # (behind a prefixed glob: KF11)
+        slots = presults[h["sid"]]["slot_of"]
+        for y in pyielded.get(h["sid"], []):
+            if y["err"] != "none" or not y["verdicts"] or y["text"] is None:
+                continue
+            rel = W.rel_to(y["text"], h["_base_text"])
+            for l, slot in zip(h["layers"], slots):
+                if l["kind"] != "not" or y["ins"][slot - 1] != "F":
+                    continue
+                n_prod += 1
+                m = pmatch[((C.text(l["patterns"][0]),), rel)]
+                if (y["verdicts"][slot - 1] != "keep") != m:
+                    v.disagree({"t": "DISAGREE", "what": "negation_verdict_differs_from_is_match", "sid": h["sid"], "scenario": h,
+                                "sig": {"prefixed_glob": False, "neg": [C.text(l["patterns"][0])], "neg_finding": "none", "residue_input": False, "verdict": y["verdicts"][slot - 1]}},
+                               "%s: entry %r (relative %r): not(%r) answers %s but is_match is %s" % (h["desc"], y["text"], rel, C.text(l["patterns"][0]), y["verdicts"][slot - 1], m))
+    ntraces += pntraces
     samples = [{"scenario": h["desc"], "yielded": [os.path.normpath(C.text(b["item"]["facts"]["path"]["p"])) for b in results[h["sid"]]["blocks"] if b["item"]["k"] == "entry"][:8]}
                for h in rnd.sample(scenarios, min(5, len(scenarios)))]
     rc = v.finish()
     C.write_evidence("C03", tier, "model_checking", {
+        "product_scenarios": {"walks": len(prod), "negation_verdicts_compared": n_prod, "trace_states": ptstats["distinct"]},
         "states": sum(st["distinct"] for _, st in mc) + tstats["distinct"] + ns_stats["distinct"],
         "transitions": sum(st["generated"] for _, st in mc) + tstats["generated"] + ns_stats["generated"],
         "traces_validated_against_impl": ntraces,
